@@ -35,6 +35,8 @@ type Regime struct {
 	TrimDepths            map[uint8]uint64
 	BlocksPerMonth        uint64
 	LockupPrecompileStart uint64
+	// ConversionSlipChangeBlock: prime height of the fork that swapped the arguments of the cubic conversion discount
+	ConversionSlipChangeBlock uint64
 }
 
 func DefaultRegime() Regime {
@@ -43,7 +45,7 @@ func DefaultRegime() Regime {
 		MinerDifficultyWindow: params.MinerDifficultyWindow,
 		LockupDepth:    [4]uint64{3, 5, 7, 9},
 		TrimDepths:     map[uint8]uint64{0: 2, 1: 3, 2: 4, 3: 5, 4: 6, 5: 7},
-		BlocksPerMonth: 3, LockupPrecompileStart: 0,
+		BlocksPerMonth: 3, LockupPrecompileStart: 0, ConversionSlipChangeBlock: 0,
 	}
 }
 
@@ -53,7 +55,7 @@ func (r Regime) Apply() (restore func()) {
 		ConversionLockPeriod: params.ConversionLockPeriod, CoinbaseEpochBlocks: params.CoinbaseEpochBlocks,
 		MinerDifficultyWindow: params.MinerDifficultyWindow,
 		LockupDepth: params.LockupByteToBlockDepth, TrimDepths: types.TrimDepths, BlocksPerMonth: params.BlocksPerMonth,
-		LockupPrecompileStart: params.CoinbaseLockupPrecompileKickInHeight,
+		LockupPrecompileStart: params.CoinbaseLockupPrecompileKickInHeight, ConversionSlipChangeBlock: params.ConversionSlipChangeBlock,
 	}
 	set := func(x Regime) {
 		params.TimeToStartTx = x.TimeToStartTx
@@ -65,6 +67,7 @@ func (r Regime) Apply() (restore func()) {
 		types.TrimDepths = x.TrimDepths
 		params.BlocksPerMonth = x.BlocksPerMonth
 		params.CoinbaseLockupPrecompileKickInHeight = x.LockupPrecompileStart
+		params.ConversionSlipChangeBlock = x.ConversionSlipChangeBlock
 	}
 	set(r)
 	return func() { set(old) }
@@ -109,7 +112,9 @@ var (
 )
 
 func init() {
-	for i := 0; i < 6; i++ {
+	// 0..3 funded general senders, 4 claim recipient, 5 coinbase, 6 recipient of Qi->Quai conversions (receives only),
+	// 7 funded dedicated Quai->Qi converter (its only activity is conversions)
+	for i := 0; i < 8; i++ {
 		quaiAccounts = append(quaiAccounts, deterministicKey(fmt.Sprintf("quai%d", i), false))
 	}
 	for i := 0; i < 16; i++ {
@@ -119,7 +124,12 @@ func init() {
 
 func GenAllocs(n int, amount *big.Int) []params.GenesisAccount {
 	var out []params.GenesisAccount
+	idx := []int{}
 	for i := 0; i < n; i++ {
+		idx = append(idx, i)
+	}
+	idx = append(idx, 7)
+	for _, i := range idx {
 		om := orderedmap.New[uint64, *big.Int]()
 		om.Set(0, new(big.Int).Set(amount))
 		out = append(out, params.GenesisAccount{Address: quaiAccounts[i].Addr, Award: new(big.Int).Set(amount), Vested: new(big.Int).Set(amount), BalanceSchedule: om})
